@@ -302,6 +302,34 @@ fn m9_writer_vs_acknowledge_then_close() {
     report("m9_writer_vs_acknowledge_then_close");
 }
 
+/// 10. two threads poll the same stream for permission with one unit of credit left (the `&self`
+/// API allows it): at most one may send, and the counter must not wrap
+#[test]
+fn m10_two_writers_one_credit() {
+    model(|| {
+        let p = parts(1);
+        let Parts { stream, data, .. } = p;
+        let credit = data.psh_send_remaining.clone();
+        let stream = Arc::new(stream);
+        let s2 = stream.clone();
+        let poll_once = |s: &MuxStream| {
+            let waker = futures_util::task::noop_waker();
+            let cx = Context::from_waker(&waker);
+            matches!(s.poll_obtain_write_permission(&cx), Poll::Ready(Some(())))
+        };
+        let t = thread::spawn(move || poll_once(&s2));
+        let a = poll_once(&stream);
+        let b = t.join().expect("second writer");
+        let sent = u32::from(a) + u32::from(b);
+        let left = credit.load(Ordering::SeqCst);
+        assert!(sent <= 1, "one unit of credit allowed {sent} frames");
+        assert_eq!(left + sent, 1, "credit left + frames sent = credit granted (left {left})");
+        outcome(format!("sent={sent} left={left}"));
+        drop(data);
+    });
+    report("m10_two_writers_one_credit");
+}
+
 // ---- flow-id allocation under concurrent opens (supplements the scheduler-level checks)
 
 #[derive(Debug)]
